@@ -560,6 +560,11 @@ func RunMain(prop, tier string, seed uint64) int {
 			fsig := raceSig(r.stderr)
 			if k == "fatal:hang" {
 				fsig = hangSig(r.stderr)
+				if spec.HangIsInfra {
+					fmt.Fprintf(os.Stderr, "HARNESS: run %d of worker %d did not return (%s): with serialised real goroutines a hang is not attributed to the code under test\n%s\n", r.lastIdx, i, fsig, Trunc(r.stderr, 6000))
+					infra = true
+					continue
+				}
 			}
 			fatals = append(fatals, fatalRun{idx: r.lastIdx, kind: k, sig: k + " " + fsig, stderr: r.stderr})
 		}
